@@ -15,6 +15,7 @@ func FuzzVerifC15LocalLoad(f *testing.F) {
 		f.Add([]byte(s), uint8(1), false)
 	}
 	f.Fuzz(func(t *testing.T, rec []byte, capacity uint8, noENI bool) {
+		defer g.FuzzGuard(t, "FuzzVerifC15LocalLoad", rec, capacity, noENI)()
 		vfC15RunLoad(g.FuzzSink{T: t}, vfC15LoadScenario{Kind: "fuzz", Records: []g.Bytes{g.Bytes(rec)}, Cap: int(capacity % 12), NoENI: noENI})
 	})
 }
